@@ -1166,6 +1166,7 @@ class Unit:
         self.bare_closures = {}   # fn -> closures left without a contract (non-trivial bodies)
         self.bare_loops = {}      # fn -> number of loops without a template invariant
         self.callees = {}         # fn -> names called in the body (as written in /repo)
+        self.lifted_ranges = {}   # file -> token ranges of closure bodies lifted into functions (R28)
         self.trusted_text = {}    # "<file>: <qualified fn>" -> text of a function whose contract is ASSUMED here (//@assume) or that is only watched (//@watch)
         self.lost_required = {}   # fn -> required before/after anchors that found no statement
         self.lost_optional = {}   # fn -> optional before?/after? anchors that found no statement (their hints are missing)
@@ -1215,7 +1216,16 @@ class Unit:
                         if it["kw"] == "impl" and it["body_open"] is not None and m.group(2) in L.impl_header(rf.toks, it):
                             cands += [f for f in rf.fns_in(it) if f["kw"] == "fn" and f["name"] == m.group(3)]
                 key = "%s: %s%s" % (m.group(1), (m.group(2) + "::") if m.group(2) else "", m.group(3))
-                self.trusted_text[key] = _code_text(rf.toks, cands[0]["start"], cands[0]["end"]) if len(cands) == 1 else "<absent or ambiguous>"
+                if len(cands) == 1:
+                    a0, b0 = cands[0]["start"], cands[0]["end"]
+                    cut = sorted(r for r in self.lifted_ranges.get(m.group(1), []) if a0 <= r[0] and r[1] <= b0)
+                    parts, x = [], a0
+                    for ra, rb in cut:
+                        parts.append(_code_text(rf.toks, x, ra)); parts.append("<lifted>"); x = rb
+                    parts.append(_code_text(rf.toks, x, b0))
+                    self.trusted_text[key] = " ".join(parts)
+                else:
+                    self.trusted_text[key] = "<absent or ambiguous>"
                 i += 1
             elif cmd == "lift":
                 # //@lift <file> <enclosing fn> ~closure selector~ <virtual file name> <signature of the new function>
@@ -1295,6 +1305,7 @@ class Unit:
             raise Undecided("lost anchor: closure ~%s~ in %s of %s (%d candidates)" % (selector, fn_name, rel, len(hits)))
         c = hits[0]
         body = L.text(rf.toks, c[2], c[3])
+        self.lifted_ranges.setdefault(rel, []).append((c[2], c[3]))     # this text is verified as a function of its own (//@watch leaves it out)
         RepoFile.virtual(vrel, signature + " " + body + "\n")
         self.rewrites.append("R28 %s:%d the body of the closure ~%s~ in %s lifted verbatim into `%s`" % (rel, rf.toks[c[0]].line, selector, fn_name, L.norm(signature)))
 
